@@ -1,7 +1,7 @@
 """C19 - channel helpers never lose, duplicate or invent a value (DESIGN.md section 7-C19)."""
 from ..core import *
 
-CLAUSES = ["I_NoPanic", "I_NeverBlocks", "I_Queued", "I_QueuedPending", "I_Outcome", "I_SendConserve", "I_RecvConserve", "I_Unlimited"]
+CLAUSES = ["I_NoPanic", "I_NeverBlocks", "I_Queued", "I_QueuedPending", "I_Outcome", "I_SendConserve", "I_RecvConserve", "I_Unlimited", "I_RecvRace", "I_SendRace"]
 
 
 def check(run):
@@ -39,6 +39,18 @@ def check(run):
         slow = [t for t in timed if t["dl"] in ("zero", "neg", "never") and t["peer"] == "none" and not (t["closed"] or (t["op"].startswith("Recv") and t["fill"] > 0) or (t["op"].startswith("Send") and t["fill"] < t["cap"]))]
         fast = [t for t in timed if t not in slow]
         timed = fast + run.rng.sample(slow, min(len(slow), 6))
+    # several callers racing for the last queued values / free slots (a single caller never sees these windows)
+    race = []
+    for rnd in range(60 if q else 600):
+        cap = run.rng.choice([1, 2, 4])
+        fill = run.rng.randint(0, cap)
+        race.append(dict(op="RecvRace", cap=cap, fill=fill, closed=run.rng.random() < 0.5, n=run.rng.choice([2, 4, 8]), limit=0, pending=0))
+        race.append(dict(op="SendRace", cap=cap, fill=fill, closed=False, n=run.rng.choice([2, 4, 8]), limit=0, pending=0))
+    # the closed-channel races cost no waiting at all: many rounds, because the windows are a few instructions wide
+    for rnd in range(6000 if q else 60000):
+        cap = run.rng.choice([1, 2, 4])
+        race.append(dict(op="RecvRace", cap=cap, fill=run.rng.choice([1, 1, cap]), closed=True, n=8, limit=0, pending=0))
+    timed = timed + race
     # run the timed scenarios in parallel driver processes (they sleep), the queued ones in one
     from concurrent.futures import ThreadPoolExecutor
     chunks = [timed[i::12] for i in range(12)]
@@ -49,6 +61,9 @@ def check(run):
     plans = plan + [t for ch in chunks for t in ch]
     segs = [[e] for e in evs]
     validate(run, "chans", "ChanAbsTrace", {}, segs, CLAUSES, plans=[[p] for p in plans])
+    for r in run.rejections:
+        if r["segment"] and r["segment"][-1].get("op") in ("RecvRace", "SendRace"):
+            r["fact"] = True      # a free-running race of real goroutines: the recorded execution happened; it need not recur
     run.cov.update(queued_cells=len(plan), timed_scenarios=len(timed), exhaustive=True,
                    distinct_nontrivial=distinct_count(segs, lambda s: True),
                    rule="queued receivers: every capacity 0..%d x fill x open/closed x limit 0..%d cell (+ cells with senders parked on the "
